@@ -3,19 +3,29 @@
 use super::*;
 use crate::verif_common::*;
 
-// Kani compiles with panic=abort and has no unwinding semantics: its model of the catch_unwind
-// intrinsic simply calls the closure.  "Never unwinds into the caller" is therefore NOT decided here;
-// a panic inside the wrappers is reported by Kani as a failed check instead.
+// Kani 0.68 hits an internal compiler error on the catch_unwind intrinsic of its toolchain and has no
+// unwinding semantics (panic=abort).  The driver therefore substitutes, IN THE SCRATCH COPY ONLY, the import
+// `panic::catch_unwind` in src/lib.rs by a cfg(kani) shim that calls the closure (lib/driver.py,
+// CATCH_UNWIND_SUBST).  "Never unwinds into the caller" is therefore NOT decided here; a panic inside
+// the wrappers is reported by Kani as a failed check instead.
 
 const GUARD: usize = 4;
 const CAPMAX: usize = 20;
 
 kproof! {
     /// K12a: WrapperCompressZip — status, *result_size and the caller's buffer bounds
-    fn k12a_wrapper_compress() {
+    #[kani::stub(crate::preflate_container::recompress_deflate_stream, crate::preflate_container::verif_harness::stub_recompress_err)]
+    #[kani::stub(crate::preflate_container::decompress_deflate_stream, crate::preflate_container::verif_harness::stub_decompress_reject)]
+    #[kani::stub(crate::idat_parse::IdatContents::read_from_bytestream, crate::preflate_container::verif_harness::stub_idat_read_err)]
+    #[kani::stub(crate::scan_deflate::skip_gzip_header, crate::preflate_container::verif_harness::stub_gzip_err)]
+    #[kani::stub(crate::scan_deflate::parse_zip_stream, crate::preflate_container::verif_harness::stub_zip_err)]
+    #[kani::stub(crate::idat_parse::parse_idat, crate::preflate_container::verif_harness::stub_idat_err)]
+    fn k12a_wrapper_compress() { wrapper_compress::<0>(); wrapper_compress::<2>(); wrapper_compress::<3>(); }
+}
+fn wrapper_compress<const FLEN: usize>() {
+    {
         let file: [u8; 3] = kani::any();
-        let flen: usize = kani::any();
-        kani::assume(flen <= 3);
+        let flen: usize = FLEN;
         let cap: usize = kani::any();
         kani::assume(cap <= CAPMAX);
         let mut region = [0xA5u8; GUARD + CAPMAX + GUARD];
@@ -49,10 +59,18 @@ kproof! {
 
 kproof! {
     /// K12b: compress then WrapperDecompressZip into a guarded buffer of every capacity
-    fn k12b_wrapper_roundtrip() {
+    #[kani::stub(crate::preflate_container::recompress_deflate_stream, crate::preflate_container::verif_harness::stub_recompress_err)]
+    #[kani::stub(crate::preflate_container::decompress_deflate_stream, crate::preflate_container::verif_harness::stub_decompress_reject)]
+    #[kani::stub(crate::idat_parse::IdatContents::read_from_bytestream, crate::preflate_container::verif_harness::stub_idat_read_err)]
+    #[kani::stub(crate::scan_deflate::skip_gzip_header, crate::preflate_container::verif_harness::stub_gzip_err)]
+    #[kani::stub(crate::scan_deflate::parse_zip_stream, crate::preflate_container::verif_harness::stub_zip_err)]
+    #[kani::stub(crate::idat_parse::parse_idat, crate::preflate_container::verif_harness::stub_idat_err)]
+    fn k12b_wrapper_roundtrip() { wrapper_roundtrip::<0>(); wrapper_roundtrip::<3>(); }
+}
+fn wrapper_roundtrip<const FLEN: usize>() {
+    {
         let file: [u8; 3] = kani::any();
-        let flen: usize = kani::any();
-        kani::assume(flen <= 3);
+        let flen: usize = FLEN;
         let mut comp = [0u8; 24];
         let mut csize: u64 = 0;
         let rc = unsafe { WrapperCompressZip(file.as_ptr(), flen as u64, comp.as_mut_ptr(), 24, &mut csize as *mut u64) };
@@ -73,13 +91,19 @@ kproof! {
         }
         if cap < flen { assert!(rc2 < 0, "undersized output buffer must give a negative status"); }
         if cap >= flen { assert!(rc2 == 0); }
-        kani::cover!(rc2 == 0 && cap == flen && flen == 3, "exact fit");
+        kani::cover!(rc2 == 0 && cap == flen, "exact fit");
         kani::cover!(rc2 < 0, "undersized");
     }
 }
 
 kproof! {
     /// K12c: arbitrary (non-container / non-frame) bytes into WrapperDecompressZip: status only, buffer untouched outside
+    #[kani::stub(crate::preflate_container::recompress_deflate_stream, crate::preflate_container::verif_harness::stub_recompress_err)]
+    #[kani::stub(crate::preflate_container::decompress_deflate_stream, crate::preflate_container::verif_harness::stub_decompress_reject)]
+    #[kani::stub(crate::idat_parse::IdatContents::read_from_bytestream, crate::preflate_container::verif_harness::stub_idat_read_err)]
+    #[kani::stub(crate::scan_deflate::skip_gzip_header, crate::preflate_container::verif_harness::stub_gzip_err)]
+    #[kani::stub(crate::scan_deflate::parse_zip_stream, crate::preflate_container::verif_harness::stub_zip_err)]
+    #[kani::stub(crate::idat_parse::parse_idat, crate::preflate_container::verif_harness::stub_idat_err)]
     fn k12c_wrapper_decompress_garbage() {
         let data: [u8; 12] = kani::any();
         let n: usize = kani::any();
@@ -88,13 +112,15 @@ kproof! {
         kani::assume(cap <= 4);
         let mut region = [0x5Au8; GUARD + 4 + GUARD];
         let mut osize: u64 = 0xdead;
+        let well_formed = n >= 8 && data[0..4] == zstd::bulk::MAGIC && u32::from_le_bytes([data[4], data[5], data[6], data[7]]) as usize == n - 8;
+        kani::assume(!well_formed);
         let rc = unsafe { WrapperDecompressZip(data.as_ptr(), n as u64, region.as_mut_ptr().add(GUARD), cap as u64, &mut osize as *mut u64) };
+        assert!(rc < 0, "a non-frame must give a negative status");
         let mut i = 0;
         while i < GUARD { assert!(region[i] == 0x5A); i += 1; }
         let mut i = GUARD + cap;
         while i < GUARD + 4 + GUARD { assert!(region[i] == 0x5A, "write past the caller's buffer"); i += 1; }
         if rc == 0 { assert!(osize as usize <= cap); }
-        kani::cover!(rc == 0 && osize == 1, "garbage that happens to be a valid frame+container");
-        kani::cover!(rc < 0, "rejected");
+        kani::cover!(n == 12, "rejected full-length input");
     }
 }
